@@ -524,7 +524,7 @@ func (e *Env) evalIdx(n *Node) Term {
 		case *types.Slice:
 			i := c.idxTerm(e.eval(n.Args[1], SInt))
 			reg := c.elemRegion(u.Elem())
-			return Term{S: fmt.Sprintf("(select (select %s %s) (+ %s %s))", c.get(e.st, reg), slArr(x.S), slOff(x.S), i), Sort: c.sortOf(u.Elem()), T: u.Elem()}
+			return Term{S: fmt.Sprintf("(select (select %s %s) (idx %s %s))", c.get(e.st, reg), slArr(x.S), slOff(x.S), i), Sort: c.sortOf(u.Elem()), T: u.Elem()}
 		case *types.Pointer:
 			if at, ok := u.Elem().Underlying().(*types.Array); ok {
 				i := c.idxTerm(e.eval(n.Args[1], SInt))
@@ -619,6 +619,12 @@ func (e *Env) evalCall(n *Node, want string) Term {
 	case "off":
 		x := e.eval(args[0], "")
 		return Term{S: slOff(x.S), Sort: SInt}
+	case "alloc":
+		return Term{S: e.st.alloc, Sort: SInt}
+	case "elems":
+		gt := e.resolveType(typeArg(args[0]))
+		reg := c.elemRegion(gt)
+		return Term{S: c.get(e.st, reg), Sort: c.regSort[reg]}
 	case "ref":
 		x := e.eval(args[0], "")
 		if x.Sort == SSlice {
@@ -794,7 +800,7 @@ func (c *FnCtx) modLocs(env *Env, n *Node) []ModLoc {
 					out = append(out, ModLoc{r, ""})
 				}
 				return out
-			case "elems":
+					case "elems":
 				gt := env.resolveType(typeArg(n.Args[1]))
 				return []ModLoc{{c.elemRegion(gt), ""}}
 			}
